@@ -402,6 +402,9 @@ def generate_handler(repo: Path) -> str:
     t = S.SkelTr(repo, S.HANDLER_SPEC)
     gen = t.generate(["manage_loop"])
     body = (TIES_DIR / "handler_proto.lean").read_text().replace("--%GEN%\n", gen)
+    for mark, rel, cls, comp in (("--%GEN_TRAINING%\n", "thread/threads/training.py", "TrainingThread", "_trainers"),
+                                 ("--%GEN_INFERENCE%\n", "thread/threads/inference.py", "InferenceThread", "_interaction")):
+        body = body.replace(mark, S.SkelTr(repo, S.hooks_spec(rel, cls, comp)).generate(["on_paused", "on_resumed"]))
     return ("import Pamiq.Lemmas.ProtoBg\nset_option linter.unusedVariables false\nset_option linter.unusedSimpArgs false\n"
             "namespace Pamiq.GenH\nopen Pamiq\n\n" + body + "\nend Pamiq.GenH\n")
 
